@@ -15,7 +15,7 @@ def run(chk, replay=None):
     chk.rule = ('one case per Open transition after every history (<= 3/4 creations, history length bound) of 2 universes covering all entity kinds plus 5 focused universes with a churn counter (containers emptied and refilled, links replaced, dimensions / features / properties deleted and re-created before the reopen) '
                 'kinds (BFS exhaustive within the bounds) plus Open steps of random behaviours over the whole vocabulary (9 creations, nesting); '
                 'full observation compared after reopen in rw and ro mode')
-    file_common.run_file_check(chk, cfgs, sims, judge=judge, replay=replay, opts={'ignore_handles': True},  coverage=['Open', 'pre:Close', 'pre:SetAttr', 'pre:AppendDim', 'pre:AddLink', 'pre:SetOne', 'pre:Delete'])
+    file_common.run_file_check(chk, cfgs, sims, judge=judge, replay=replay, opts={'ignore_handles': True, 'touch_retained': True},  coverage=['Open', 'pre:Close', 'pre:SetAttr', 'pre:AppendDim', 'pre:AddLink', 'pre:SetOne', 'pre:Delete'])
     # direction B: random API programs recorded from the real library, validated against NixFileTrace.tla
     file_common.run_traces(chk, lambda e: e['a'] == 'Open', 24 if chk.thorough else 6, 1500 if chk.thorough else 400)
     chk.exhaustive = False
